@@ -62,6 +62,16 @@ MemoPut(key, r) == Append(MemoDrop(key), [key |-> key] @@ r)
 SeedGetM(key) == LET I == {j \in 1..Len(seeds) : seeds[j].key = key} IN
                  IF I = {} THEN [key |-> key, k |-> "none"] ELSE seeds[CHOOSE j \in I : TRUE]
 SeedPutM(key, r) == Append(SelectSeq(seeds, LAMBDA m : m.key # key), [key |-> key] @@ r)
+\* Grammar.parse() runs the *optimized* grammar (peg/base.py Grammar.optimized, Optional.optimized): an optional whose body is an
+\* optional, a closure or a non-positive join/gather is replaced by that body - which loses the optional's own define() of its names.
+RECURSIVE Optimized(_)
+Optimized(e) == CASE e.op \in Nary -> [e EXCEPT !.es = [i \in 1..Len(e.es) |-> Optimized(e.es[i])]]
+                  [] e.op = "join" -> [e EXCEPT !.e = Optimized(e.e)]
+                  [] e.op = "opt" -> LET x == Optimized(e.e) IN
+                                     IF x.op \in {"opt", "star"} \/ (x.op = "join" /\ ~x.plus) THEN x ELSE [e EXCEPT !.e = x]
+                  [] e.op \in Unary -> [e EXCEPT !.e = Optimized(e.e)]
+                  [] OTHER -> e
+BodyExp(name) == Optimized(RuleRec(name).exp)
 Memoizable(name) == Memoize /\ RuleRec(name).memo /\ ~RuleRec(name).nomemo
 IsLrec(name) == RuleRec(name).lrec /\ Cfg.lr
 
@@ -234,7 +244,7 @@ RepStep ==
 \* ---------------------------------------------------------------- rule invocation: engine.call / rule_call / recursive_call
 StartBody(p, phase, lp, st) ==
   /\ fr' = Push(Append(Goto(st, p), Fr(p)))                          \* goto after next_token; states.new(); statescope push
-  /\ ctl' = Append(SetK([TopK EXCEPT !.i = phase, !.p0 = p, !.lp = lp]), K(RuleRec(TopK.e.name).exp))
+  /\ ctl' = Append(SetK([TopK EXCEPT !.i = phase, !.p0 = p, !.lp = lp]), K(BodyExp(TopK.e.name)))
   /\ ret' = NoRet
 
 CallEnter ==
@@ -294,7 +304,7 @@ GrowStep ==
      THEN /\ seeds' = SeedPutM(key, [k |-> "ok", node |-> CstFinal(bv.node), newpos |-> newpos])      \* save_result closes open lists
           /\ memo' = SelectSeq(memo, LAMBDA x : ~("guard" \in DOMAIN x /\ x.guard))                    \* clear_recursion_errors
           /\ fr' = Push(Append(Goto(base, TopK.p0), Fr(TopK.p0)))
-          /\ ctl' = Append(SetK([TopK EXCEPT !.lp = newpos + 1]), K(RuleRec(name).exp))
+          /\ ctl' = Append(SetK([TopK EXCEPT !.lp = newpos + 1]), K(BodyExp(name)))
           /\ ret' = NoRet
      ELSE LET sd == SeedGetM(key) IN
           /\ seeds' = seeds /\ memo' = memo /\ ctl' = PopK
